@@ -711,6 +711,18 @@ int main() {
         else if (t[0] == "rcq") { r = cmd_rcq(std::vector<std::string>(t.begin() + 1, t.end())); }
         else if (t[0] == "rcenum" && t.size() >= 3) { r = cmd_rcenum(std::vector<std::string>(t.begin() + 1, t.end())); }
         else if (t[0] == "rc") { r = cmd_rc(std::vector<std::string>(t.begin() + 1, t.end())); }
+        else if (t[0] == "rcdirty" && t.size() >= 2) {
+            // mixed use of the two managers: blocks that served GivMMFreeList (user bytes in data[0]) wait on the free lists GivMMRefCount recycles from
+            std::vector<int> sizes; { std::stringstream ss(t[1]); std::string x; while (std::getline(ss, x, ',')) sizes.push_back(atoi(x.c_str())); }
+            int n = 0;
+            for (size_t i = 0; i < sizes.size(); ++i) {
+                void* p1 = GivMMFreeList::allocate((size_t) sizes[i] + 8); void* p2 = GivMMFreeList::allocate((size_t) sizes[i] + 8);
+                memset(p1, 0x77, (size_t) sizes[i] + 8); memset(p2, 0x5a, (size_t) sizes[i] + 8);
+                addr_id(p1); addr_id(p2); n += 2;
+                GivMMFreeList::desallocate(p1); GivMMFreeList::desallocate(p2);
+            }
+            std::ostringstream o; o << "dirty " << n; r = o.str();
+        }
         else if (t[0] == "refcounter") { r = cmd_refcounter(); }
         else if (t[0] == "formcounts") { std::ostringstream o; o << "FORMS"; for (int i = 0; i < F_NFORMS; ++i) o << " " << g_fname[i] << "=" << g_fc[i]; r = o.str(); }
         else if (t[0] == "mmcpy") {     // GivMMFreeList::memcpy(dest, src, n) between two pooled blocks; the bytes after n and the source stay as they were
